@@ -726,6 +726,29 @@ def rule_recovery_noconsume(prog):
                 "the recovery consumes tokens (comments) in front of `ignore_until` and its failure carries the input behind them: "
                 "`expect` resumes there, so the comments - the doc comments of the next declaration - are swallowed and the "
                 "follow-up diagnostics move into the next declaration", ("recover",))
+    # whatever is handed to expect(..) fails *comment-neutral*: expect resumes at the failing parser's input, so a parser that skips
+    # comments first and then finds nothing must report the input it was entered with - otherwise a missing token swallows the
+    # comments behind it, i.e. the documentation of the next declaration.  The failure input of a parser expression is evaluated
+    # abstractly: token parsers -> their own input (clauses above); alt -> its last alternative (nom returns the last error);
+    # map/info/affected/.. -> the wrapped parser; a sequence -> its first element, `behind` if that is a comment skipper;
+    # a function that rebuilds its errors from its own input -> its own input.
+    ev = _FailInput(prog)
+    n_exp = 0
+    for b in c.bodies:
+        f_ = c.file_of(b["sp"])
+        if not (f_.endswith("src/parser.rs") or "/parser/" in f_) or "/tests" in f_:
+            continue
+        for call in hir.nodes(b["body"], "Call"):
+            if (hir.callee(call) or "") != "spl_frontend::parser::utility::expect" or len(call["args"]) < 2:
+                continue
+            verdict = ev.parser(call["args"][1], b, 0)
+            n_exp += 1
+            out.add(b["d"], "the parser handed to expect() fails with the input it was entered with", None if verdict is None else verdict == "orig",
+                    c.loc(call["sp"]), "the parser expected here skips comments and, when the expected thing is missing, reports the input *behind* "
+                    "them: expect() resumes there, the comments (the doc comments of the next declaration) are swallowed by the damaged "
+                    "node and its diagnostics land in the following declaration", ("expect", "neutral"))
+    if n_exp < 20:
+        out.missing("expect(..) call sites in the parser (found %d)" % n_exp)
     # declaration keywords are consumed only by the declaration parsers and look_ahead::global_dec
     for kw, owner in (("proc", "ProcedureDeclaration"), ("type", "TypeDeclaration")):
         path = "spl_frontend::parser::keywords::" + ("r#type" if kw == "type" else kw)
@@ -745,6 +768,173 @@ def rule_recovery_noconsume(prog):
                     c.loc(n_["sp"]), "a parser below declaration level that accepts `%s` lets a syntax error leak "
                     "into the next declaration" % kw, ("kw",))
     return out
+
+
+class _FailInput:
+    """Abstract evaluation of `which input does this parser report when it fails before consuming a token that is no comment`:
+    'orig' (the input it was entered with) / 'behind' (behind comments it skipped) / None (unknown)."""
+
+    WRAP0 = ("map", "info", "cut", "verify", "recognize", "consumed", "peek", "map_res", "map_opt", "context", "into", "all_consuming", "many1", "many",
+             "inc", "confusable")
+    SEQ = ("preceded", "pair", "tuple", "terminated", "delimited", "separated_pair")
+    NEVER = ("opt", "many0", "expect", "success")
+
+    def __init__(self, prog):
+        self.prog = prog
+        self.c = prog.front
+        self.tags = tag_parsers(prog)
+        self.memo = {}
+
+    def combine(self, vs):
+        vs = list(vs)
+        if not vs:
+            return None
+        if any(v == "behind" for v in vs):
+            return "behind"
+        if all(v == "orig" for v in vs):
+            return "orig"
+        return None
+
+    def is_comment_skip(self, e):
+        e = hir.strip(e)
+        if e.get("k") == "Call" and last(hir.callee(e) or "") in ("many0", "many1") and e["args"]:
+            a = hir.strip(e["args"][0])
+            d = hir.path_def(a) if a.get("k") == "Path" else None
+            return bool(d) and last(d.get("rp") or d.get("p") or "") == "comment"
+        return False
+
+    def restores(self, b):
+        ids = _param_ids(b)
+        inp = None
+        for q in b["params"]:
+            for bd in hir.pat_bindings(q):
+                if "TokenStream" in self.c.tstr(bd["bt"]):
+                    inp = bd["id"]
+        if inp is None:
+            return False
+        n_lits, ok = _error_inputs_ok(self.prog, b, inp)
+        has_map_err = any(x.get("k") == "MethodCall" and x["m"] == "map_err" for x in hir.nodes(b["body"]))
+        return n_lits > 0 and ok and has_map_err
+
+    def function(self, b, depth):
+        if b["p"] in self.memo:
+            return self.memo[b["p"]]
+        # recursion guard: a parser reaches itself again only behind a consumed token (`(` Expression `)`), where a failure is no longer
+        # a failure "before a token was consumed"; the recursive occurrence is therefore assumed neutral
+        self.memo[b["p"]] = "orig"
+        if b["p"] in self.tags:
+            r = "orig"
+        elif self.restores(b):
+            r = "orig"
+        else:
+            r = self.applications(b["body"], b, [q for q in b["params"]], depth)
+        self.memo[b["p"]] = r
+        return r
+
+    def applications(self, root, b, params, depth):
+        """parsers applied to the (original) input of `root`'s owner: every one of them is a first step on some path"""
+        inp_ids = set()
+        for q in params:
+            for bd in hir.pat_bindings(q):
+                if "TokenStream" in self.c.tstr(bd["bt"]):
+                    inp_ids.add(bd["id"])
+        res = []
+        for call in hir.nodes(root, "Call"):
+            if not any((hir.path_local(hir.strip(a)) or {}).get("id") in inp_ids for a in call["args"]):
+                continue
+            f = hir.strip(call["f"])
+            d = hir.path_def(f) if f.get("k") == "Path" else None
+            if d and d.get("dk") in ("Fn", "AssocFn"):
+                res.append(self.path(f, b, depth + 1))
+            else:
+                res.append(self.parser(f, b, depth + 1))
+        for mc in hir.nodes(root, "MethodCall"):
+            # `parser.parse(input)` / `inner.parse(this, input)` on a let-bound or parameter parser
+            if mc["m"] == "parse" and any((hir.path_local(hir.strip(a)) or {}).get("id") in inp_ids for a in mc["args"]):
+                res.append(self.parser(mc["recv"], b, depth + 1))
+        return self.combine(res)
+
+    def path(self, e, b, depth):
+        d = hir.path_def(e)
+        if not d or depth > 60:
+            return None
+        p_ = d.get("rp") or d.get("p")
+        if p_ in self.tags:
+            return "orig"
+        body = self.prog.body(p_) if p_ and p_.startswith("spl_frontend::") else None
+        if body is None:
+            return None
+        if body["d"].startswith("<ast::Reference<") and body["d"].endswith("as parser::Parser>::parse"):
+            # Reference<T>::parse wraps T::parse
+            ta = e["res"].get("targs") or []
+            for t_ in ta:
+                ty = self.c.ty(int(t_))
+                # the Self type of the call: Reference<T> -> T
+                if ty["k"] == "adt" and last(ty["p"]) == "Reference" and ty.get("a"):
+                    ty = self.c.ty(int(ty["a"][0]))
+                nm = ty.get("s") or self.c.tstr(int(t_))
+                tb = [x for x in self.c.bodies if x["d"] == "<%s as parser::Parser>::parse" % nm or x["d"] == "<ast::%s as parser::Parser>::parse" % last(nm)]
+                if tb:
+                    return self.function(tb[0], depth + 1)
+            return None
+        return self.function(body, depth + 1)
+
+    def parser(self, e, b, depth):
+        e = hir.strip_ref(e)
+        if depth > 60:
+            return None
+        k = e.get("k")
+        if k == "Path":
+            pl = hir.path_local(e)
+            if pl:
+                for l in hir.nodes(b["body"], "Let"):
+                    if l["pat"].get("k") == "Binding" and l["pat"]["id"] == pl["id"] and l.get("init") is not None:
+                        return self.parser(l["init"], b, depth + 1)
+                return None
+            return self.path(e, b, depth)
+        if k == "Closure":
+            # a closure that rebuilds its errors from (a clone of) its own input
+            inp = None
+            for q in e["params"]:
+                for bd in hir.pat_bindings(q):
+                    if "TokenStream" in self.c.tstr(bd["bt"]):
+                        inp = bd["id"]
+            if inp is not None and any(x.get("k") == "MethodCall" and x["m"] == "map_err" for x in hir.nodes(e["body"])):
+                n_lits, ok = _error_inputs_ok(self.prog, {"body": e["body"], "p": b["p"] + "::{closure}"}, inp, 0)
+                if n_lits > 0 and ok:
+                    return "orig"
+            return self.applications(e["body"], b, e["params"], depth)
+        if k == "Call":
+            cal = hir.callee(e) or ""
+            nm = last(cal)
+            args = e["args"]
+            if cal.endswith("branch::alt") and args:
+                es = hir.strip(args[0]).get("es") or []
+                return self.parser(es[-1], b, depth + 1) if es else None
+            if nm == "affected" and len(args) >= 2:
+                return self.parser(args[1], b, depth + 1)
+            if nm in self.NEVER:
+                return "orig"
+            if nm in self.WRAP0 and args:
+                return self.parser(args[0], b, depth + 1)
+            if nm in self.SEQ and args:
+                elems = (hir.strip(args[0]).get("es") or []) if nm == "tuple" else args
+                for el in elems:
+                    if self.is_comment_skip(el):
+                        return "behind"
+                    el_ = hir.strip(el)
+                    if el_.get("k") == "Call" and last(hir.callee(el_) or "") in self.NEVER:
+                        continue    # cannot fail: the next element decides
+                    return self.parser(el, b, depth + 1)
+                return "orig"
+            # a local function that *returns* a parser, or is applied partially: unknown
+            hb = hir.local_callee_body(self.prog, e)
+            if hb is not None and any("TokenStream" in self.c.tstr(pp["bt"]) for q in hb["params"] for pp in hir.pat_bindings(q)):
+                return self.function(hb, depth + 1)
+            return None
+        if k == "MethodCall" and e["m"] in ("map_err",):
+            return self.parser(e["recv"], b, depth + 1)
+        return None
 
 
 # ------------------------------------------------------------------ PARSE-SHAPE
@@ -969,8 +1159,8 @@ def rule_empty_range_guard(prog):
         found = 0
         for root in roots:
             for n, parents in hir.walk(root):
-                if not (n.get("k") == "MethodCall" and n["m"] in ("expect", "unwrap") and hir.strip(n["recv"]).get("k") == "MethodCall"
-                        and hir.strip(n["recv"])["m"] in ("first", "last")):
+                if not (n.get("k") == "MethodCall" and n["m"] in ("expect", "unwrap") and
+                        any(x.get("k") == "MethodCall" and x["m"] in ("first", "last") for x in hir.nodes(n["recv"]))):
                     continue
                 found += 1
                 guarded = False
@@ -1002,6 +1192,18 @@ def rule_empty_range_guard(prog):
                         "handled first")
         if found == 0:
             out.add(b["d"], "no unguarded first()/last().expect()", True, c.loc(b["sp"]), "")
+    # the text range of a published diagnostic starts at the first token of the node *that is no comment*: every token parser
+    # skips the comments in front of its token inside the node, so the node's token range begins with them
+    eb = [b for b in targets if b["d"] == "<AnalyzedSource as ErrorContainer>::errors"]
+    if eb:
+        tests = False
+        for x in hir.nodes_deep(prog, eb[0]["body"], 1, crate=c):
+            pats = [a_["pat"] for a_ in x["arms"]] if x.get("k") == "Match" else [x["pat"]] if x.get("k") == "LetExpr" else []
+            if any("spl_frontend::tokens::TokenType::Comment" in hir.pat_variants_all(pt) for pt in pats):
+                tests = True
+        out.add(eb[0]["d"], "the range of a diagnostic starts behind the comments in front of the construct", tests, c.loc(eb[0]["sp"]),
+                "the start of the text range is the start of the node's first token, comments included: `// note⏎ i := a;` reports "
+                "`assignment has different types` on the comment line as well", ("diagstart",))
     return out
 
 
@@ -1092,8 +1294,8 @@ def rule_tokchange_args(prog):
         if e.get("k") == "MethodCall":
             if e["m"] in ("len", "count", "input_len"):
                 return True
-            if e["m"] in ("min", "max") and e["args"]:
-                return is_length(e["recv"], depth + 1) and is_length(e["args"][0], depth + 1)
+            if e["m"] in ("min", "max", "clamp") and e["args"]:
+                return is_length(e["recv"], depth + 1) and all(is_length(a_, depth + 1) for a_ in e["args"])
             return False
         if e.get("k") == "Call":
             hb = hir.local_callee_body(prog, e)
